@@ -4,6 +4,7 @@
 
 mod alloc;
 mod common;
+mod counts;
 mod engine;
 mod expr_ir;
 mod kf;
@@ -12,6 +13,7 @@ mod refsweep;
 mod replay;
 mod spaces;
 mod statemodel;
+mod wide;
 
 use common::{Ctx, Tier};
 
@@ -41,6 +43,37 @@ fn main() {
     }
     if args.len() >= 6 && args[1] == "c06-worker" {
         std::process::exit(props::c06::worker(&args[2..]));
+    }
+    if args.len() >= 5 && args[1] == "counts" {
+        // scratch: frmc counts C01|C03|C04 <dense> <top>
+        let w = match args[2].as_str() {
+            "C01" => counts::Which::C01,
+            "C03" => counts::Which::C03,
+            _ => counts::Which::C04,
+        };
+        let t0 = Instant::now();
+        let t = counts::sweep(w, args[3].parse().unwrap(), args[4].parse().unwrap());
+        println!("programs={} evaluations={} nontrivial={} violations={} counters={:?} wall={:.1}s", t.programs, t.evaluations, t.nontrivial, t.n_violations, t.counters, t0.elapsed().as_secs_f64());
+        for (_, v) in t.violations.iter().take(12) {
+            println!("  {}", v.str_of("summary"));
+        }
+        return;
+    }
+    if args.len() >= 4 && args[1] == "wide" {
+        // scratch: frmc wide groups|spans|shadow quick|thorough
+        let m = match args[2].as_str() {
+            "groups" => wide::Mode::Groups,
+            "spans" => wide::Mode::Spans,
+            _ => wide::Mode::Shadow,
+        };
+        let t0 = Instant::now();
+        let sp = wide::wide_space(args[3] == "quick");
+        let t = wide::sweep(&sp, m, 3);
+        println!("programs={} evaluations={} nontrivial={} violations={} counters={:?} wall={:.1}s", t.programs, t.evaluations, t.nontrivial, t.n_violations, t.counters, t0.elapsed().as_secs_f64());
+        for (_, v) in t.violations.iter().take(12) {
+            println!("  {}", v.str_of("summary"));
+        }
+        return;
     }
     if args.len() >= 2 && args[1] == "bench-sched" {
         props::c18::bench();
